@@ -51,6 +51,9 @@ type Case struct {
 	// is, but not "the same point" as P. A link end is the nearest existing node if that is the same point, else a
 	// new node: P is a new node, and the link ending there does not reach N.
 	Trap bool `json:"trap,omitempty"`
+	// Huge k: every coordinate (nodes, link geometry, query points) was multiplied exactly by 2^k, k from 520 to 700: link
+	// lengths are still ordinary float64 numbers, their squares are not
+	Huge int `json:"huge,omitempty"`
 }
 
 type EarlyQ struct {
@@ -261,6 +264,22 @@ func gen(t *rapid.T) Case {
 		c.Links = append(c.Links, Link{A: fIdx, B: rIdx, Speed: 1}, Link{A: pIdx, B: qIdx, Speed: 1})
 		c.From, c.To = c.Nodes[qIdx], N
 		c.Trap = true
+	}
+	if !jitter && !c.Bisector && !c.Micro && !c.Trap && c.Offset == 0 && rapid.IntRange(0, 11).Draw(t, "huge") == 5 {
+		c.Huge = rapid.SampledFrom([]int{520, 540, 600, 700}).Draw(t, "hugek")
+		mv := func(p vkit.P2) vkit.P2 { return vkit.MkP(math.Ldexp(float64(p[0]), c.Huge), math.Ldexp(float64(p[1]), c.Huge)) }
+		for i := range c.Nodes {
+			c.Nodes[i] = mv(c.Nodes[i])
+		}
+		for i := range c.Links {
+			for j := range c.Links[i].Mid {
+				c.Links[i].Mid[j] = mv(c.Links[i].Mid[j])
+			}
+		}
+		c.From, c.To = mv(c.From), mv(c.To)
+		for i := range c.Early {
+			c.Early[i].From, c.Early[i].To = mv(c.Early[i].From), mv(c.Early[i].To)
+		}
 	}
 	return c
 }
@@ -487,6 +506,9 @@ func run(c Case) (v vkit.Verdict) {
 	v.Class(fmt.Sprintf("time_%v", c.Time))
 	if c.Offset != 0 {
 		v.Class(fmt.Sprintf("network_%g_from_the_origin", c.Offset))
+	}
+	if c.Huge != 0 {
+		v.Class("coordinates_times_2^520_and_more")
 	}
 	if c.Trap {
 		v.Class("link_end_within_tolerance_of_a_node_that_is_not_its_nearest")
